@@ -79,20 +79,20 @@ def run(prog, chk):
     reach = panics.reachable_bodies(prog, ENTRY)
     chk.floor("A1.entry", len([p for p in ENTRY if prog.maybe_body(p)]), 10, "entry point")
     chk.floor("A1.reach", len(reach), 500, "function reachable from the entry points")
-    panic_sites(prog, chk, reach)
+    chk.rule(panic_sites, prog, chk, reach)
     from props import C01_rec, C01_loops
-    C01_rec.run(prog, chk, reach)
-    C01_loops.run(prog, chk, reach)
-    frontends(prog, chk)
-    utf8_boundary(prog, chk)
-    infinite_iterators(prog, chk, reach)
-    retry_amplification(prog, chk)
-    retry_novelty(prog, chk)
-    retry_baseline_after_attempt(prog, chk)
+    chk.rule(C01_rec.run, prog, chk, reach)
+    chk.rule(C01_loops.run, prog, chk, reach)
+    chk.rule(frontends, prog, chk)
+    chk.rule(utf8_boundary, prog, chk)
+    chk.rule(infinite_iterators, prog, chk, reach)
+    chk.rule(retry_amplification, prog, chk)
+    chk.rule(retry_novelty, prog, chk)
+    chk.rule(retry_baseline_after_attempt, prog, chk)
     from props import C17
-    C17.scope_var_limit(prog, chk)  # unbounded growth of scope variables is memory exhaustion (abort)
-    C17.limits_wiring(prog, chk)  # the limits the termination argument rests on are the ones the front-ends configure
-    C17.limit_errors_keep_their_variant(prog, chk)  # a limit error that is re-wrapped on its way up is retried: the limit-exhausting work repeats at every nesting level
+    chk.rule(C17.scope_var_limit, prog, chk)  # unbounded growth of scope variables is memory exhaustion (abort)
+    chk.rule(C17.limits_wiring, prog, chk)  # the limits the termination argument rests on are the ones the front-ends configure
+    chk.rule(C17.limit_errors_keep_their_variant, prog, chk)  # a limit error that is re-wrapped on its way up is retried: the limit-exhausting work repeats at every nesting level
 
 
 def utf8_boundary(prog, chk):
